@@ -117,7 +117,7 @@ def tickRcv (now : Nat) : List Nat → St → Nat → List Out → St × Nat × 
   | [], s, nw, o => (s, nw, o, none)
   | k :: ks, s, nw, o =>
     match s.rcv.get? k with
-    | none => (s, nw, o, some .KeyError)
+    | none => tickRcv now ks s nw o      -- removed by the receive path since the snapshot: skipped (repair of D19)
     | some buf =>
       let r := tickRcvOne now buf
       let s1 := match r.1 with
